@@ -44,36 +44,29 @@ Definition first_seg (p : term) : option (string * bool) :=
 
 (* occurrences in visit order: for a type/expression path the qualified self type is visited
    first, then the path's own first segment is tested, then the path's arguments *)
+Definition no_qself (q : term) : bool := is_kind "ONone" (tlabel q).
+
+(* after fix F32 type and expression paths are read alike: after a qualified self the path names
+   a trait or an associated item; otherwise the first segment may be a type parameter, and a
+   bare name may be a const parameter *)
 Fixpoint index_term (st : pstate) (t : term) {struct t} : pstate :=
   match t with
   | Node l ks =>
       if is_kind "Lifetime" l || is_kind "PredLifetime" l then
         fold_left index_term ks (fst (try_index st PLt (ld l)))
-      else if is_kind "TPath" l then
+      else if is_kind "TPath" l || is_kind "EPath" l then
         match ks with
         | [q; p] =>
             let st1 := index_term st q in
             let st2 :=
-              match first_seg p with
-              | Some (n, bare) =>
-                  let (s, ok) := try_index st1 PTy n in
-                  if ok then s else if bare then fst (try_index st1 PCt n) else st1
-              | None => st1
-              end in
-            index_term st2 p
-        | _ => fold_left index_term ks st
-        end
-      else if is_kind "EPath" l then
-        match ks with
-        | [q; p] =>
-            let st1 := index_term st q in
-            let st2 :=
-              match first_seg p with
-              | Some (n, _) =>
-                  let (s, ok) := try_index st1 PTy n in
-                  if ok then s else fst (try_index st1 PCt n)
-              | None => st1
-              end in
+              if no_qself q then
+                match first_seg p with
+                | Some (n, bare) =>
+                    let (s, ok) := try_index st1 PTy n in
+                    if ok then s else if bare then fst (try_index st1 PCt n) else st1
+                | None => st1
+                end
+              else st1 in
             index_term st2 p
         | _ => fold_left index_term ks st
         end
@@ -159,15 +152,16 @@ Fixpoint ren (ix : list (pkind * string * nat)) (t : term) {struct t} : term :=
       let ks' := map (ren ix) ks in
       if is_kind "Lifetime" l || is_kind "PredLifetime" l then
         Node (rename_label l (new_name ix PLt (ld l))) ks'
-      else if is_kind "TPath" l then
+      else if is_kind "TPath" l || is_kind "EPath" l then
         match ks' with
         | [q'; Node lp (Node ls sargs :: rest)] =>
-            if is_kind "Path" lp && is_kind "Seg" ls then
+            if is_kind "Path" lp && is_kind "Seg" ls && no_qself q' then
             match new_name ix PTy (ld ls) with
             | Some n =>
                 match rest with
-                | [] => mk_ty_param n
-                | _ => Node (K "TPath" "") [qself0 (mk_ty_param n); Node (K "Path" "::") rest]
+                | [] => if is_kind "TPath" l then mk_ty_param n else mk_ex_param n
+                | _ => Node (K (if is_kind "TPath" l then "TPath" else "EPath") "")
+                            [qself0 (mk_ty_param n); Node (K "Path" "::") rest]
                 end
             | None =>
                 match first_seg (Node lp (Node ls sargs :: rest)) with
@@ -177,25 +171,6 @@ Fixpoint ren (ix : list (pkind * string * nat)) (t : term) {struct t} : term :=
                     | None => Node l ks'
                     end
                 | _ => Node l ks'
-                end
-            end
-            else Node l ks'
-        | _ => Node l ks'
-        end
-      else if is_kind "EPath" l then
-        match ks' with
-        | [q'; Node lp (Node ls sargs :: rest)] =>
-            if is_kind "Path" lp && is_kind "Seg" ls then
-            match new_name ix PTy (ld ls) with
-            | Some n =>
-                match rest with
-                | [] => mk_ex_param n
-                | _ => Node (K "EPath" "") [qself0 (mk_ty_param n); Node (K "Path" "::") rest]
-                end
-            | None =>
-                match new_name ix PCt (ld ls) with
-                | Some n => Node l [q'; Node lp (Node (K "Seg" n) [Node (K "ANone" "") []] :: rest)]
-                | None => Node l ks'
                 end
             end
             else Node l ks'
@@ -212,9 +187,10 @@ Fixpoint kept (ix : list (pkind * string * nat)) (t : term) {struct t} : list (p
       let below := flat_map (kept ix) ks in
       if is_kind "Lifetime" l || is_kind "PredLifetime" l then
         match new_name ix PLt (ld l) with Some _ => below | None => (PLt, ld l) :: below end
-      else if is_kind "TPath" l then
+      else if is_kind "TPath" l || is_kind "EPath" l then
         match ks with
         | [q; p] =>
+            if no_qself q then
             match first_seg p with
             | Some (n, bare) =>
                 match new_name ix PTy n with
@@ -225,19 +201,7 @@ Fixpoint kept (ix : list (pkind * string * nat)) (t : term) {struct t} : list (p
                 end
             | None => below
             end
-        | _ => below
-        end
-      else if is_kind "EPath" l then
-        match ks with
-        | [q; p] =>
-            match first_seg p with
-            | Some (n, _) =>
-                match new_name ix PTy n, new_name ix PCt n with
-                | None, None => (PTy, n) :: below
-                | _, _ => below
-                end
-            | None => below
-            end
+            else below
         | _ => below
         end
       else below
@@ -298,7 +262,7 @@ Section Alpha.
         if is_kind "Lifetime" l || is_kind "PredLifetime" l then Node (K (lk l) (rl (ld l))) ks'
         else if is_kind "TPath" l || is_kind "EPath" l then
           match ks' with
-          | [q; p] => Node l [q; rename_first_seg p]
+          | [q; p] => if no_qself q then Node l [q; rename_first_seg p] else Node l ks'
           | _ => Node l ks'
           end
         else Node l ks'
